@@ -201,14 +201,28 @@ def execute(p, chooser):
             det.wait_until(lambda: nc._state == "FINISHED" or f._state != "FINISHED")
             obs["res"] = ("nocancel", c, f._state, nc._state, nc._result if p["state"] != "failed" else nc._exception, v, exc)
             return
+        if kind in ("bin", "un") and p["state"] == "failed" and (p["vi"] + p["op"]) % 3 == 0:
+            # the edge ProxyFuture.__getattr__ comments on: the future failed with an AttributeError, which Python takes for a failed
+            # lookup of the `__result` property (Props/C17_more.v: c17_result_property_one_call)
+            exc = AttributeError("boom")
         if p["state"] != "pending":
             with det.atomic():
                 resolve()
         px = f_proxy(f)
+        # ghost log of Model/Proxy2.v made real: every self.result(timeout) call of the proxy, with the timeout it was given
+        # (an instance attribute shadows the class's method for `self.result(...)`; nothing else about the proxy changes)
+        calls = []
+        inner_result = px.result
+
+        def counted_result(timeout=None):
+            calls.append(timeout)
+            return inner_result(timeout)
+        px.result = counted_result
         if kind == "nonfwd":
             name, fn = NONFWD[p["op"]]
             r = outcome(lambda: fn(px))
             obs["res"] = ("nonfwd", name, r, f._state)
+            obs["calls"] = (name, list(calls), (0, 0))
             return
         if kind == "bin":
             name, fn = BIN[p["op"]]
@@ -223,8 +237,11 @@ def execute(p, chooser):
         got = outcome(lambda: call(px))
         if env:
             env.join()
-        want = ("e", "KeyError") if p["state"] == "failed" else outcome(lambda: call(v2))
+        want = ("e", type(exc).__name__) if p["state"] == "failed" else outcome(lambda: call(v2))
         obs["res"] = ("op", name, got, want)
+        # one forwarded operation = exactly one result() call (the two-step probes setitem / delitem perform a second operation
+        # when the first one went through)
+        obs["calls"] = (name, list(calls), (1, 2) if name in ("setitem", "delitem") and p["state"] != "failed" else (1, 1))
 
     r = det.run(chooser, main)
     return r, obs
@@ -248,6 +265,12 @@ def monitor(r, obs):
     res = obs["res"]
     if res is None:
         return out
+    if obs.get("calls") is not None:
+        from more_executors._impl.common import MAX_TIMEOUT
+        cname, calls, (lo, hi) = obs["calls"]
+        if not (lo <= len(calls) <= hi) or any(c != MAX_TIMEOUT or type(c) is not type(MAX_TIMEOUT) for c in calls):
+            out.append({"what": "%s on the proxy made %d result() call(s) with timeouts %r (expected %d..%d with the configured timeout)"
+                                % (cname, len(calls), calls, lo, hi), "detail": str(p), "pattern": "proxy:resolutions:" + cname})
     if res[0] == "op":
         _, name, got, want = res
         if not veq(got, want):
